@@ -1,6 +1,7 @@
 import TnVerif.Generated
 import TnVerif.Model.Cross
 import TnVerif.Lemmas.Sum
+import TnVerif.Lemmas.Cross
 import Mathlib.Algebra.BigOperators.Ring.Finset
 import Mathlib.Algebra.BigOperators.Intervals
 import Mathlib.Algebra.Order.Field.Basic
@@ -202,6 +203,63 @@ theorem pivot_identity_of_solve (m : Mode K) (Q C W : Nat → Nat → K) (loc : 
   · simp [h]
   · simp [h, Ne.symm h]
 end solve
+
+/-! ### the function is evaluated only at entries of the argument tensors at grid positions
+
+`evaluate_function(j)` (cross.py:307-320) hands the user's function, for every fibre `(a, i, b)` and every argument tensor, the
+number `Σ linterface[j][a, p] · core_j[p, i, q] · rinterface[j][q, b]`.  The interfaces are built incrementally from the pivots
+(cross.py:406-411, 441-446).  The theorem says this number is the ENTRY of the argument tensor at the grid index
+`lsets[j][a] ++ [i] ++ rsets[j][b]` — so (for `domain=` targets, whose argument tensors are the mesh-grid tensors) the function is
+only ever evaluated at points of the given grid, and for `tensors=` targets at tuples of entries at one common grid position. -/
+section evaluation
+variable {R : Type} [CommRing R]
+
+/-- **sampling positions are grid entries**: `pre` = the modes `j-1, …, 0` of an argument tensor (latest first) with the pivots
+    of the left-to-right sweep, `m` = its mode `j`, `post` = its modes `j+1 … N-1`, each with the RESULT's rank `R_{l+1}` (the divisor `unravel_index` uses) and
+    the pivots of the right-to-left sweep;
+    `p` = the tensor's left boundary rank (1, or `R` when its first core is a CP factor) -/
+theorem evaluate_at_grid (p : Nat) (pre : List (Mode R × (Nat → Nat))) (m : Mode R) (post : List (Mode R × Nat × (Nat → Nat)))
+    (hw : wfRevP p (pre.map (·.1))) (hm : m.rl = topRankP p (pre.map (·.1))) (a i b : Nat) :
+    evalPoint (linterface pre) m (rinterface post) a i b =
+      dense ((pre.map (·.1)).reverse ++ m :: post.map (·.1))
+        ((lsetsRev (llevels pre) a).reverse ++ i :: rsetsOf (rlevels post) b) := by
+  obtain ⟨w1, w2⟩ := wfRevP_forward p _ hw
+  have hlen : (lsetsRev (llevels pre) a).reverse.length = ((pre.map (·.1)).reverse).length := by
+    simp [lsetsRev_length, llevels]
+  -- right-hand side: the boundary rows of the tail of the whole chain, summed
+  have hd : dense ((pre.map (·.1)).reverse ++ m :: post.map (·.1)) ((lsetsRev (llevels pre) a).reverse ++ i :: rsetsOf (rlevels post) b) =
+      ∑ s ∈ range p, tail ((pre.map (·.1)).reverse ++ m :: post.map (·.1))
+        ((lsetsRev (llevels pre) a).reverse ++ i :: rsetsOf (rlevels post) b) s := by
+    cases hf : (pre.map (·.1)).reverse with
+    | nil =>
+      have hnil : pre.map (·.1) = [] := by simpa using hf
+      have : m.rl = p := by rw [hm, hnil]; rfl
+      simp [dense, this, sumTo_eq]
+    | cons x xs =>
+      rw [hf] at w1
+      have : x.rl = p := w1.1
+      simp [dense, this, sumTo_eq]
+  have ht : ∀ s ∈ range p, tail ((pre.map (·.1)).reverse ++ m :: post.map (·.1))
+        ((lsetsRev (llevels pre) a).reverse ++ i :: rsetsOf (rlevels post) b) s =
+      ∑ c ∈ range m.rl, chainMat (pre.map (·.1)).reverse (lsetsRev (llevels pre) a).reverse s c *
+        tail (m :: post.map (·.1)) (i :: rsetsOf (rlevels post) b) c := by
+    intro s hs
+    rw [tail_append _ _ p _ _ s w1 (Finset.mem_range.mp hs) hlen, w2, ← hm]
+  rw [hd, Finset.sum_congr rfl ht, Finset.sum_comm]
+  simp only [evalPoint, sumTo_eq, tail]
+  apply Finset.sum_congr rfl; intro c hc
+  have hc' : c < topRankP p (pre.map (·.1)) := by rw [← hm]; exact Finset.mem_range.mp hc
+  rw [← Finset.sum_mul, ← linterface_eq_chainMat p pre hw a c hc', Finset.mul_sum]
+  apply Finset.sum_congr rfl; intro q _
+  rw [rinterface_eq_tail]
+  ring
+
+/-- the hypotheses are satisfiable with a non-trivial prefix: one earlier mode of ranks 1 → 2, current mode with left rank 2 -/
+example : let m0 : Mode Int := { rl := 1, rr := 2, n := 3, G := fun i _ b => (i + b : Int) }
+    let pre : List (Mode Int × (Nat → Nat)) := [(m0, fun (_ : Nat) => (0 : Nat))]
+    wfRevP 1 (pre.map (·.1)) ∧ 2 = topRankP 1 (pre.map (·.1)) :=
+  ⟨⟨rfl, trivial⟩, rfl⟩
+end evaluation
 
 /-- the contraction patterns of `cross.py` the design was written against, re-extracted on every run -/
 theorem einsums_from_source :
